@@ -25,6 +25,15 @@ type HNode struct {
 	bmemo map[int]*Term
 }
 
+// heapSymInfo: for every array symbol that stands for (part of) a heap map version, the map it belongs to and
+// the allocation counter below which all references stored in it lie (nil: the entry counter alloc0).
+type heapSym struct {
+	name string
+	at   *Term
+}
+
+var heapSymInfo = map[int]heapSym{}
+
 const (
 	hBase = iota
 	hStore
@@ -169,6 +178,7 @@ func (c *Ctx) heapNode(s *State, name string, vsort *Sort) *HNode {
 	if !ok {
 		sym = Sym("H0."+name, arraySort(SInt, vsort))
 		c.baseSyms[name] = sym
+		heapSymInfo[sym.id] = heapSym{name: name}
 	}
 	n := c.baseNode(name, sym, vsort)
 	s.heap[name] = n
@@ -210,6 +220,7 @@ func (c *Ctx) hhavoc(s *State, name string, vsort *Sort, bound *Term, excl []*Te
 	n.prev = prev
 	n.at = post
 	n.sym = Fresh("H."+name+"@"+why, arraySort(SInt, vsort))
+	heapSymInfo[n.sym.id] = heapSym{name: name, at: post}
 	n.bound = bound
 	n.excl = excl
 	s.heap[name] = n
